@@ -256,7 +256,7 @@ STORE_NOTE = ('Trusted: Lean kernel (axioms propext, Classical.choice, Quot.soun
 PROPS['C01'] = dict(lean=['Mkdb.Props.C01'], facts=STORE_FACTS, runs=[dict(cmd='db', proto='db', args=['c01'])],
     sig_filter=r'db:(contents-differ:live|schema-differs:live|row-ids-not-increasing:live|row-id:live|panic:live|hang:live|select-failed:live|valid-statement-refused:live)',
     
-    claim='Proof (partial): C01_step / C01_history - for every history of tree operations of any length (inserts with whatever leaf splits, internal splits at any depth and root growths they cause, value changes, deletions) what a scan of the tree sees is exactly the plain list the history implies: accepted inserts appended in order, changed values in place, tombstones set; C01_select_sees_live_rows; C01_ids_strictly_increasing - row ids strictly increasing hence unique; C01_no_resurrection - a deleted row stays deleted through every later operation. C01_forest_* - trees sharing one file never share a page and an operation on one leaves the others alone. These are about the levels model of storage/btree.go (Mkdb.Tree); C01_heap_history / C01_heap_history_scan carry them to the heap model that is compared with the code: for every store whose page heap holds a well-formed tree and every history of inserts, value changes and deletions, the insertKeyHeap / findLeaf+updateCellAt / tombstone code of the heap model itself ends holding exactly the levels tree and scanRight returns its live cells (proved refinement, about 3500 lines, any depth up to the 64-level fuel). C01_statement_insert: at statement level, under the catalog invariant Cat (page table, sys_schema and user tables held as disjoint well-formed trees, page-table rows naming exactly them, row ids below the counter), RelationService.Insert finds the table through the catalog, appends the row under the next row id with whatever splits, re-points the catalog exactly when the root moved, logs exactly the records the model logs, leaves every other table alone and re-establishes Cat; C01_statement_unknown_table. C01_statement_select / _delete / _update: likewise Fetch returns the decoded live rows in scan order with the declared columns, MarkDeleted and Update change exactly the one row, log exactly one record and touch no other page or table, and refusals change nothing. C01_statement_create_table: CREATE TABLE of a new name adds exactly one page-table entry and one sys_schema row per declared column (read back as declared), leaves every other table and its columns alone, and its flush leaves no dirty page and the header on disk equal to the one in memory. END TO END: C01_insert_refines_plain_model, C01_delete_refines_plain_model, C01_update_refines_plain_model - whenever the plain in-memory model (Spec/Tables.lean, the very specification the judge evaluates on the implementation) accepts a multi-row INSERT, a DELETE or an UPDATE with its WHERE, the evaluator of the engine model (statement loop, catalog lookups, WHERE evaluation, row codec, B+ tree, log batch) succeeds and the resulting store abstracts - table by table, declared columns and decoded live rows in order - to the result of the plain model. C01_every_statement_refines_plain_model: one theorem over parsed statements - under the relation Rel (abstraction to the plain database, no stale sys_schema rows, page cache filed) every CREATE TABLE, INSERT, UPDATE or DELETE the plain model accepts succeeds in the engine model and Rel holds again with the plain model result; C01_create_table_refines_plain_model gives the new catalog exactly; C01_session_runs_evalStmt: the dispatcher of these theorems is the one of the session model that the sess harness compares with Session.ExecQuery. Not covered by a theorem: the page codec under the heap (C12 separately), SELECT beyond SELECT * (C05-C07 on the executor model), statements on the catalog tables themselves. Tie: random DDL/DML histories over up to 12 tables through RelationService on real files, with page flushes and reloads at random points and histories deep enough for internal-node splits; after every statement the outcome, at intervals SELECT * of every table, the catalog, and the complete page heap are compared with the heap model (page by page: cells, flags, sibling links, LSNs, dirty bits, header), and the judge compares every table with the in-memory spec of the statements (Spec/Tables.lean) and checks row ids.',
+    claim='Proof (partial): C01_step / C01_history - for every history of tree operations of any length (inserts with whatever leaf splits, internal splits at any depth and root growths they cause, value changes, deletions) what a scan of the tree sees is exactly the plain list the history implies: accepted inserts appended in order, changed values in place, tombstones set; C01_select_sees_live_rows; C01_ids_strictly_increasing - row ids strictly increasing hence unique; C01_no_resurrection - a deleted row stays deleted through every later operation. C01_forest_* - trees sharing one file never share a page and an operation on one leaves the others alone. These are about the levels model of storage/btree.go (Mkdb.Tree); C01_heap_history / C01_heap_history_scan carry them to the heap model that is compared with the code: for every store whose page heap holds a well-formed tree and every history of inserts, value changes and deletions, the insertKeyHeap / findLeaf+updateCellAt / tombstone code of the heap model itself ends holding exactly the levels tree and scanRight returns its live cells (proved refinement, about 3500 lines, any depth up to the 64-level fuel). C01_statement_insert: at statement level, under the catalog invariant Cat (page table, sys_schema and user tables held as disjoint well-formed trees, page-table rows naming exactly them, row ids below the counter), RelationService.Insert finds the table through the catalog, appends the row under the next row id with whatever splits, re-points the catalog exactly when the root moved, logs exactly the records the model logs, leaves every other table alone and re-establishes Cat; C01_statement_unknown_table. C01_statement_select / _delete / _update: likewise Fetch returns the decoded live rows in scan order with the declared columns, MarkDeleted and Update change exactly the one row, log exactly one record and touch no other page or table, and refusals change nothing. C01_statement_create_table: CREATE TABLE of a new name adds exactly one page-table entry and one sys_schema row per declared column (read back as declared), leaves every other table and its columns alone, and its flush leaves no dirty page and the header on disk equal to the one in memory. END TO END: C01_insert_refines_plain_model, C01_delete_refines_plain_model, C01_update_refines_plain_model - whenever the plain in-memory model (Spec/Tables.lean, the very specification the judge evaluates on the implementation) accepts a multi-row INSERT, a DELETE or an UPDATE with its WHERE, the evaluator of the engine model (statement loop, catalog lookups, WHERE evaluation, row codec, B+ tree, log batch) succeeds and the resulting store abstracts - table by table, declared columns and decoded live rows in order - to the result of the plain model. C01_every_statement_refines_plain_model: one theorem over parsed statements - under the relation Rel (abstraction to the plain database, no stale sys_schema rows, page cache filed) every CREATE TABLE, INSERT, UPDATE or DELETE the plain model accepts succeeds in the engine model and Rel holds again with the plain model result; C01_create_table_refines_plain_model gives the new catalog exactly; C01_session_runs_evalStmt: the dispatcher of these theorems is the one of the session model that the sess harness compares with Session.ExecQuery. BASE CASE: C01_create_database_establishes_the_invariants - the store CREATE DATABASE produces is computed (createDB [] {} = newStore, kernel-checked) and satisfies every invariant the other theorems assume (Cat, Abs with the empty plain database, Rel, PtSelf, FreshM, Ckpt); C01_every_history_from_create_database - so every history from CREATE DATABASE on is covered; the hand-written example stores of the earlier files turned out not to be outputs of the model (same invariants, different bytes), the non-vacuity examples now run on computed stores. Not covered by a theorem: the page codec under the heap (C12 separately), SELECT beyond SELECT * (C05-C07 on the executor model), statements on the catalog tables themselves. Tie: random DDL/DML histories over up to 12 tables through RelationService on real files, with page flushes and reloads at random points and histories deep enough for internal-node splits; after every statement the outcome, at intervals SELECT * of every table, the catalog, and the complete page heap are compared with the heap model (page by page: cells, flags, sibling links, LSNs, dirty bits, header), and the judge compares every table with the in-memory spec of the statements (Spec/Tables.lean) and checks row ids.',
     note=STORE_NOTE,
     rule='1 deep history (1400 rows in one table, ~310 leaves, internal split; thorough also 2900 rows) + 12 (thorough 96) histories of 5-60 statements (thorough: every 8th has 260 statements over up to 12 tables of up to 11 columns), multi-row inserts of 1-12 rows, values up to the 400-byte row limit, 12% updates, 18% deletes, flush 10% / reload 5% per statement. Non-trivial: a history in which some table split a leaf; distinct by operation text.',
     assumptions=['row ids only ever arrive in ascending order (they come from the shared counter or from log replay)'],
@@ -264,7 +264,7 @@ PROPS['C01'] = dict(lean=['Mkdb.Props.C01'], facts=STORE_FACTS, runs=[dict(cmd='
 PROPS['C02'] = dict(lean=['Mkdb.Props.C02'], facts=STORE_FACTS, runs=[dict(cmd='db', proto='db', args=['c02']), dict(cmd='wal', proto='wal')],
     sig_filter=r'wal:.*|db:(contents-differ:after-recovery|recovery-failed:.*|valid-statement-refused:after-recovery|row-id:after-recovery|row-ids-not-increasing:after-recovery|schema-differs:after-recovery|panic:after-recovery|hang:after-recovery|select-failed:after-recovery)',
     
-    claim='Proof (partial): C02_recovery_reconstructs / C02_recovery_idempotent / C02_clean_shutdown - for every log of page-local records with increasing LSNs, every initial state and EVERY placement of page flushes (each page of the data file is the cached page as of an arbitrary earlier moment), the redo rule of WALBatch.replay (skip a record whose LSN is not newer than the page) reproduces exactly the state the acknowledged statements had built, and replaying again changes nothing; C02_log_roundtrip - the bytes wal.flush appends are read back by wal.read as exactly the records written (byte-level model). C02_concrete_replay_is_the_redo_rule / C02_concrete_recovery_reconstructs: on UPDATE and DELETE records the concrete recovery model (Engine.replayAll, the one compared with the implementation) is proved to be that redo rule page by page, so the schedule theorem is a theorem about it. C02_redo_of_unflushed_inserts: for INSERT statements (tree inserts with splits, root moves, catalog re-pointing) replaying the logged records on the store before them reproduces the live tables, catalog, row-id counter and allocation frontier; C02_recovery_of_a_flushed_database_changes_nothing: already-applied records (page LSN not older, or key present) are skipped or tolerated. C02_acknowledged_statements_survive_an_unflushed_crash (end to end): for any list of INSERT / DELETE / UPDATE statements the plain in-memory model accepts, replaying the log they wrote on the store as it was before them ends in a store that abstracts to the plain database of the live run, with the live row-id counter, allocation frontier and catalog root; C02_mixed_history_is_redone at the storage level. C02_crash_after_a_checkpoint: the same with a log that is never truncated - the start database may carry any records already applied on it and behind its counters, and the WHOLE log is replayed; C02_rounds_keep_the_checkpoint_invariant / C02_rounds_no_recovery_fails: any number of rounds of statements;flush and statements;crash;recovery (Engine.recover: replay, LSN bump, two flushes, any page write orders) from a checkpointed database end in a checkpointed database for the plain database of ALL acknowledged statements, no recovery in such a history fails, and afterwards the whole log is applied (so recovery run again changes nothing); C02_never_reuses_a_row_id: for ANY store, log and placement of flushes (a torn flush included) a replay that runs to its end leaves the row-id counter at least at the key of every logged insert, redone or skipped (the defect repaired in fa35ced). Not covered by a theorem: a crash with pages of the current round flushed and the round containing inserts that split (only UPDATE / DELETE records under arbitrary flush placements, C02_concrete_recovery_reconstructs), CREATE TABLE as a round kind - for those the concrete model Mkdb.Engine.recover (same LSN rule, same tree code as C01) is compared with the implementation. Tie: per case a random DDL/DML history through RelationService with the flush timer replaced by explicit flushes at random points (never / sometimes / always), a crash (cache dropped, files kept) after random statements, the real InitStorage in a child process, optionally a second recovery, then SELECT * of every table, heap dump and further statements; the model must produce the same heap, log and outcomes, the judge compares every table with the in-memory spec of the acknowledged statements and checks row ids stay unique and increasing.',
+    claim='Proof (partial): C02_recovery_reconstructs / C02_recovery_idempotent / C02_clean_shutdown - for every log of page-local records with increasing LSNs, every initial state and EVERY placement of page flushes (each page of the data file is the cached page as of an arbitrary earlier moment), the redo rule of WALBatch.replay (skip a record whose LSN is not newer than the page) reproduces exactly the state the acknowledged statements had built, and replaying again changes nothing; C02_log_roundtrip - the bytes wal.flush appends are read back by wal.read as exactly the records written (byte-level model). C02_concrete_replay_is_the_redo_rule / C02_concrete_recovery_reconstructs: on UPDATE and DELETE records the concrete recovery model (Engine.replayAll, the one compared with the implementation) is proved to be that redo rule page by page, so the schedule theorem is a theorem about it. C02_redo_of_unflushed_inserts: for INSERT statements (tree inserts with splits, root moves, catalog re-pointing) replaying the logged records on the store before them reproduces the live tables, catalog, row-id counter and allocation frontier; C02_recovery_of_a_flushed_database_changes_nothing: already-applied records (page LSN not older, or key present) are skipped or tolerated. C02_acknowledged_statements_survive_an_unflushed_crash (end to end): for any list of INSERT / DELETE / UPDATE statements the plain in-memory model accepts, replaying the log they wrote on the store as it was before them ends in a store that abstracts to the plain database of the live run, with the live row-id counter, allocation frontier and catalog root; C02_mixed_history_is_redone at the storage level. C02_crash_after_a_checkpoint: the same with a log that is never truncated - the start database may carry any records already applied on it and behind its counters, and the WHOLE log is replayed; C02_rounds_keep_the_checkpoint_invariant / C02_rounds_no_recovery_fails: any number of rounds of statements;flush and statements;crash;recovery (Engine.recover: replay, LSN bump, two flushes, any page write orders) from a checkpointed database end in a checkpointed database for the plain database of ALL acknowledged statements, no recovery in such a history fails, and afterwards the whole log is applied (so recovery run again changes nothing); C02_never_reuses_a_row_id: for ANY store, log and placement of flushes (a torn flush included) a replay that runs to its end leaves the row-id counter at least at the key of every logged insert, redone or skipped (the defect repaired in fa35ced). C02_rounds_from_create_database / C02_rounds_from_create_table: the rounds start from the computed stores after CREATE DATABASE and after CREATE TABLE (a general theorem that the checkpoint invariant survives CREATE TABLE is missing: concrete computation only). Not covered by a theorem: a crash with pages of the current round flushed and the round containing inserts that split (only UPDATE / DELETE records under arbitrary flush placements, C02_concrete_recovery_reconstructs), CREATE TABLE as a round kind - for those the concrete model Mkdb.Engine.recover (same LSN rule, same tree code as C01) is compared with the implementation. Tie: per case a random DDL/DML history through RelationService with the flush timer replaced by explicit flushes at random points (never / sometimes / always), a crash (cache dropped, files kept) after random statements, the real InitStorage in a child process, optionally a second recovery, then SELECT * of every table, heap dump and further statements; the model must produce the same heap, log and outcomes, the judge compares every table with the in-memory spec of the acknowledged statements and checks row ids stay unique and increasing.',
     note='Trusted: Lean kernel (axioms propext, Classical.choice, Quot.sound only), the hand-written models, the harness and hooks, the OS file system behaving as a byte array per file with fsync making earlier writes durable. Theorems are about the models; the code is covered through the correspondence and the judge, which are bounded.',
     rule='12 (thorough 96) histories of 5-40 statements over up to 4 tables with flush probability in {0,15,40,100}%, crash probability in {10,25,50}% per statement, failing statements mixed in; wal codec: 40 (thorough 320) record lists, every cut position of short logs, random cuts and damaged bytes otherwise. Non-trivial: a history with at least one crash after an unflushed change; distinct by operation text.',
     assumptions=['a crash loses the page cache and nothing else: log records are fsynced before a statement returns (forceSync) and the data file is only written by flushPages', 'InitStorage runs alone (no concurrent session)'],
